@@ -28,6 +28,16 @@
 // Sum[int64] / Sum[float64], IsMonotonic), which tells the four generated
 // kinds apart.
 //
+// The program may shut a reader down DIRECTLY (reader.Shutdown, op
+// "reader_shutdown") in the middle of a phase. That reader's pipeline ends
+// there: a PeriodicReader makes its final collection and export in that call
+// (which is then its final flush point), later Collects on it fail, Adds
+// issued afterwards are not asserted for it. Every OTHER reader must conserve
+// exactly as before: MeterProvider.ForceFlush / Shutdown call every reader
+// and join the errors, so a provider call whose error consists only of
+// ErrReaderShutdown (no more of them than readers shut down directly by then)
+// still is a flush point for all other readers.
+//
 // Two sub-checks share generator pieces, execution and oracle:
 // sum_conservation (concurrent programs, each executed twice) and
 // sequential_model (one goroutine: every bracket is an equality).
@@ -108,7 +118,7 @@ type Reader struct {
 
 // Op is one step of one goroutine.
 type Op struct {
-	K string `json:"k"`           // add | collect | flush | sleep
+	K string `json:"k"`           // add | collect | flush | sleep | reader_shutdown (Shutdown called directly on reader R)
 	P int    `json:"p,omitempty"` // perturbation before the op (vk.Perturb)
 	I int    `json:"i,omitempty"` // add: instrument index
 	S int    `json:"s,omitempty"` // add: attribute set index
@@ -120,7 +130,7 @@ type Op struct {
 	// 2 one WithAttributes option per key, keys in DESCENDING order; 3
 	// WithAttributeSet(first half) followed by WithAttributes(second half)
 	M int  `json:"m,omitempty"`
-	R int  `json:"r,omitempty"` // collect: reader index
+	R int  `json:"r,omitempty"` // collect / reader_shutdown: reader index
 	F bool `json:"f,omitempty"` // collect: use a fresh ResourceMetrics instead of the goroutine's reused one
 	D int  `json:"d,omitempty"` // sleep: 0 300us, 1 1ms, 2 3ms, 3 6ms
 }
@@ -290,6 +300,28 @@ func genCollectorOp(t *rapid.T, nr int, pert []int, sleeps bool) Op {
 	return op
 }
 
+// genReaderShutdowns: in a quarter of the cases the application shuts one or
+// two readers down DIRECTLY (reader.Shutdown, not through the provider) at a
+// generated position of the program; any reader, the first registered too.
+func genReaderShutdowns(t *rapid.T, c *Case, pert []int) {
+	if rapid.IntRange(0, 3).Draw(t, "reader_shutdown") != 0 {
+		return
+	}
+	n := rapid.IntRange(1, 2).Draw(t, "n_reader_shutdown")
+	for i := 0; i < n; i++ {
+		op := Op{K: "reader_shutdown", R: rapid.IntRange(0, len(c.Readers)-1).Draw(t, "shut_reader"), P: rapid.SampledFrom(pert).Draw(t, "p")}
+		pi := rapid.IntRange(0, len(c.Phases)-1).Draw(t, "shut_phase")
+		if len(c.Phases[pi]) == 0 {
+			c.Phases[pi] = [][]Op{{}}
+		}
+		g := rapid.IntRange(0, len(c.Phases[pi])-1).Draw(t, "shut_goroutine")
+		ops := c.Phases[pi][g]
+		at := rapid.IntRange(0, len(ops)).Draw(t, "shut_at")
+		ops = append(ops[:at:at], append([]Op{op}, ops[at:]...)...)
+		c.Phases[pi][g] = ops
+	}
+}
+
 // genSumView: in a fifth of the cases the explicit sum view is installed and
 // manual readers may be "allow-list" readers (drop by default).
 func genSumView(t *rapid.T, c *Case) {
@@ -350,6 +382,7 @@ func gen(t *rapid.T) Case {
 			c.Late = append(c.Late, ag.draw(t, burst))
 		}
 	}
+	genReaderShutdowns(t, &c, mixed)
 	c.Runs = 2
 	c.Broken = rapid.SampledFrom([]string{"", "", "", "", "", "first", "last"}).Draw(t, "broken_reader")
 	genSumView(t, &c)
@@ -375,6 +408,7 @@ func genSeq(t *rapid.T) Case {
 		}
 	}
 	c.Phases = [][][]Op{{ops}}
+	genReaderShutdowns(t, &c, none)
 	nl := rapid.IntRange(0, 2).Draw(t, "n_late")
 	for i := 0; i < nl; i++ {
 		c.Late = append(c.Late, ag.draw(t, none))
@@ -539,9 +573,36 @@ func (c *consumer) label() string {
 }
 
 type callRec struct {
-	kind       string // flush | shutdown
+	kind       string // flush | shutdown (provider) | reader_shutdown (directly on one reader)
+	reader     int    // reader_shutdown: which
 	start, end int64
 	err        error
+}
+
+// onlyReaderShutdown reports whether err is made of nothing but
+// ErrReaderShutdown (joined any number of times) and how many there are.
+// MeterProvider.ForceFlush / Shutdown call every reader and join the errors:
+// such an error means "the readers that had been shut down said so", every
+// other reader was flushed / shut down normally.
+func onlyReaderShutdown(err error) (int, bool) {
+	if err == nil {
+		return 0, true
+	}
+	if err == sdkmetric.ErrReaderShutdown { //nolint:errorlint // leaf identity wanted
+		return 1, true
+	}
+	if j, ok := err.(interface{ Unwrap() []error }); ok {
+		n := 0
+		for _, e := range j.Unwrap() {
+			k, ok := onlyReaderShutdown(e)
+			if !ok {
+				return 0, false
+			}
+			n += k
+		}
+		return n, n > 0
+	}
+	return 0, false
 }
 
 type world struct {
@@ -731,6 +792,7 @@ var known = map[string]func(Case, vk.Violation) bool{
 
 type collector interface {
 	Collect(context.Context, *metricdata.ResourceMetrics) error
+	Shutdown(context.Context) error
 }
 
 type adder func(ctx context.Context, u int64, opt ...metric.AddOption)
@@ -1033,12 +1095,16 @@ func runOnce(c Case) ([]vk.Violation, map[string]bool) {
 	}
 	var cmu sync.Mutex
 	var calls []*callRec
-	doCall := func(kind string) *callRec {
-		r := &callRec{kind: kind}
+	doCall := func(kind string, reader ...int) *callRec {
+		r := &callRec{kind: kind, reader: -1}
 		r.start = clock.Tick()
-		if kind == "flush" {
+		switch kind {
+		case "flush":
 			r.err = mp.ForceFlush(ctx)
-		} else {
+		case "reader_shutdown":
+			r.reader = reader[0]
+			r.err = colls[r.reader].Shutdown(ctx)
+		default:
 			r.err = mp.Shutdown(ctx)
 		}
 		r.end = clock.Tick()
@@ -1065,6 +1131,8 @@ func runOnce(c Case) ([]vk.Violation, map[string]bool) {
 					_ = doCollect(idx(op.R, len(c.Readers)), rm)
 				case "flush":
 					doCall("flush")
+				case "reader_shutdown":
+					doCall("reader_shutdown", idx(op.R, len(c.Readers)))
 				case "sleep":
 					time.Sleep(sleepFor(op.D))
 				}
@@ -1172,11 +1240,41 @@ func runOnce(c Case) ([]vk.Violation, map[string]bool) {
 			final      bool
 		}
 		var fps []flushPoint
+		// Direct Shutdown calls on this reader: its pipeline ends there. The call
+		// that returned nil performed the reader's final collection (periodic).
+		firstDirect := never // first direct Shutdown issued on this reader
+		var ownShutdown *callRec
+		for _, r := range calls {
+			if r.kind == "reader_shutdown" && r.reader == ri {
+				if r.start < firstDirect {
+					firstDirect = r.start
+				}
+				if r.err == nil {
+					ownShutdown = r
+				}
+			}
+		}
 		if periodic {
 			for _, r := range calls {
-				if r.err != nil {
-					classes[r.kind+"_returned_error"] = true
+				if r.kind == "reader_shutdown" {
 					continue
+				}
+				if r.err != nil {
+					// an error made only of ErrReaderShutdown, no more of them than
+					// readers the program had shut down directly by then: every other
+					// reader was flushed / shut down (the provider calls all of them)
+					n, only := onlyReaderShutdown(r.err)
+					direct := map[int]bool{}
+					for _, d := range calls {
+						if d.kind == "reader_shutdown" && d.start < r.end {
+							direct[d.reader] = true
+						}
+					}
+					if !only || n > len(direct) {
+						classes[r.kind+"_returned_error"] = true
+						continue
+					}
+					classes[r.kind+"_reported_only_reader_is_shutdown"] = true
 				}
 				if r.kind == "flush" && shutdown != nil && r.end > shutdown.start {
 					continue // overlaps or follows Shutdown
@@ -1184,7 +1282,22 @@ func runOnce(c Case) ([]vk.Violation, map[string]bool) {
 				if r.kind == "shutdown" && r != shutdown {
 					continue
 				}
+				if r.end > firstDirect {
+					continue // this reader was (being) shut down directly: the provider call does not reach it
+				}
 				fps = append(fps, flushPoint{fmt.Sprintf("%s (t=%d..%d)", map[string]string{"flush": "ForceFlush", "shutdown": "Shutdown"}[r.kind], r.start, r.end), r.start, r.end, r.kind == "shutdown"})
+			}
+			if ownShutdown != nil {
+				fps = append(fps, flushPoint{fmt.Sprintf("Shutdown of the reader itself (t=%d..%d)", ownShutdown.start, ownShutdown.end), ownShutdown.start, ownShutdown.end, true})
+			}
+		}
+		if firstDirect != never {
+			classes["reader_shut_down_directly"] = true
+			if ri == 0 {
+				classes["first_registered_reader_shut_down_directly"] = true
+			}
+			if ri < len(c.Readers)-1 {
+				classes["reader_shut_down_directly_before_a_later_registered_one"] = true
 			}
 		}
 
@@ -1456,7 +1569,11 @@ func history(c Case, adds []*addRec, cons []*consumer, calls []*callRec, errs []
 		}
 	}
 	for _, r := range calls {
-		ls = append(ls, line{r.start, fmt.Sprintf("t=%d..%d %s -> %v", r.start, r.end, r.kind, r.err)})
+		what := r.kind
+		if r.kind == "reader_shutdown" {
+			what = fmt.Sprintf("Shutdown of reader %d", r.reader)
+		}
+		ls = append(ls, line{r.start, fmt.Sprintf("t=%d..%d %s -> %v", r.start, r.end, what, r.err)})
 	}
 	sort.Slice(ls, func(i, j int) bool { return ls[i].t < ls[j].t })
 	out := make([]string, 0, len(ls)+len(errs)+len(c.Insts))
@@ -1598,7 +1715,7 @@ func runSeq(c Case) ([]vk.Violation, vk.Info) {
 func TestSequentialModel(t *testing.T) {
 	vk.Run(t, vk.Spec[Case]{
 		Property: "C02", Check: "sequential_model",
-		Rule: "the same instruments / attribute-set pool / readers as sum_conservation, but one goroutine issuing 1-80 Adds, Collects (any reader, reused or fresh ResourceMetrics), ForceFlushes and rare sleeps in sequence, final Collect, Shutdown, late calls: every bracket collapses to equality with the model at every collection point (interval exports of periodic readers still run beside it); " +
+		Rule: "the same instruments / attribute-set pool / readers as sum_conservation, but one goroutine issuing 1-80 Adds, Collects (any reader, reused or fresh ResourceMetrics), ForceFlushes, rare sleeps and (a quarter of the cases) 1-2 direct Shutdown calls on a reader in sequence, final Collect, Shutdown, late calls: every bracket collapses to equality with the model at every collection point (interval exports of periodic readers still run beside it); " +
 			"non-trivial = >= 2 Adds and at least one Add between two collection points; distinct = distinct case encodings",
 		Quick: 1500, Thorough: 15000,
 		Gen: genSeq, Run: runSeq, Repeat: 20, Known: known,
@@ -1608,7 +1725,7 @@ func TestSequentialModel(t *testing.T) {
 func TestSumConservation(t *testing.T) {
 	vk.Run(t, vk.Spec[Case]{
 		Property: "C02", Check: "sum_conservation",
-		Rule: "generated concurrent programs: 1-4 instruments (Int64/Float64 Counter/UpDownCounter, two meters; in a quarter of the cases 2-4 instruments of one meter - and optionally 1-2 of the other meter - share ONE name and differ in kind / number type), a pool of 1-6 near-identical attribute sets, 1-3 readers (ManualReader or PeriodicReader with a recording exporter and a 1 ms - 5 ms or 1 h interval; delta / cumulative / delta-for-counters temporality), 1-4 barrier-separated phases of 1-8 recorder goroutines (0-200 Adds of exact, pairwise distinct values, <= 1000 per program) and 0-3 collector goroutines (Collect on any reader, provider ForceFlush, sleeps) with generated schedule perturbations, a final Collect on manual readers, Shutdown (optionally racing further Adds) and late calls; each program is executed twice; " +
+		Rule: "generated concurrent programs: 1-4 instruments (Int64/Float64 Counter/UpDownCounter, two meters; in a quarter of the cases 2-4 instruments of one meter - and optionally 1-2 of the other meter - share ONE name and differ in kind / number type), a pool of 1-6 near-identical attribute sets, 1-3 readers (ManualReader or PeriodicReader with a recording exporter and a 1 ms - 5 ms or 1 h interval; delta / cumulative / delta-for-counters temporality), 1-4 barrier-separated phases of 1-8 recorder goroutines (0-200 Adds of exact, pairwise distinct values, <= 1000 per program) and 0-3 collector goroutines (Collect on any reader, provider ForceFlush, sleeps) with generated schedule perturbations, in a quarter of the cases 1-2 direct Shutdown calls on a reader at a generated position, a final Collect on manual readers, Shutdown (optionally racing further Adds) and late calls; each program is executed twice; " +
 			"non-trivial = >= 1 collection (Collect / ForceFlush by logical-clock overlap, or an export whose collection window contains an Add) ran concurrently with >= 1 Add and >= 2 collections happened; distinct = distinct case encodings",
 		Quick: 300, Thorough: 3000,
 		Gen: gen, Run: run, Repeat: 100, Known: known,
